@@ -14,11 +14,13 @@ NS_ITTP = "http://www.w3.org/ns/ttml/profile/imsc1#parameter"
 NS_ITTS = "http://www.w3.org/ns/ttml/profile/imsc1#styling"
 NS_EBUTTS = "urn:ebu:tt:style"
 NS_XML = "http://www.w3.org/XML/1998/namespace"
+NS_TTM = "http://www.w3.org/ns/ttml#metadata"
+NS_FOREIGN = "urn:example:foreign"
 
 
 def ns_table():
     import ttconv.imsc.namespaces as n
-    t = {"": 0, n.TTML: 1, n.TTP: 2, n.TTS: 3, n.ITTP: 4, n.ITTS: 5, n.EBUTTS: 6, n.XML: 7}
+    t = {"": 0, n.TTML: 1, n.TTP: 2, n.TTS: 3, n.ITTP: 4, n.ITTS: 5, n.EBUTTS: 6, n.XML: 7, NS_TTM: 8}      # ttm: the reader has no name for it
     assert (n.TTML, n.TTP, n.TTS, n.XML) == (NS_TT, NS_TTP, NS_TTS, NS_XML)
     return t
 
@@ -29,7 +31,11 @@ class Lit:
         self.ns = dict(ns_table()); self.next_foreign = 100
 
     def qn(self, name):
-        if not isinstance(name, str): return "(999, [])"          # comments / PIs: never generated
+        # comment and processing-instruction nodes (ElementTree: the tag is the function et.Comment / et.ProcessingInstruction):
+        # the pseudo-names T_comment / T_pi of Base/ImscXml.v
+        if name is et.Comment: return "(98,[])"
+        if name is et.ProcessingInstruction: return "(99,[])"
+        if not isinstance(name, str): raise TypeError(f"tag {name!r}")
         if name.startswith("{"):
             uri, local = name[1:].split("}", 1)
         else:
@@ -278,8 +284,9 @@ def q(ns, local): return f"{{{ns}}}{local}" if ns else local
 class DocGen:
     """grammar-based TTML documents for the timing tie.  `table` maps every generated time-attribute string to
     the abstract expression it was printed from."""
-    def __init__(self, rng, p_seq=0.2, p_indef_in_seq=0.25, styles=False):
+    def __init__(self, rng, p_seq=0.2, p_indef_in_seq=0.25, styles=False, p_noncontent=0.0):
         self.rng = rng; self.table = {}; self.ntext = 0
+        self.p_noncontent = p_noncontent; self.noncontent = None      # statistics of the interleaved non-content children, if any
         self.p_seq = p_seq; self.p_indef_in_seq = p_indef_in_seq
         self.flags = set()
         rng_ = rng
@@ -451,7 +458,158 @@ class DocGen:
             if rng.random() < 0.4: self.timing(body)
             self.container(body, "body", 0)
             if self.regions and rng.random() < 0.5: body.set("region", rng.choice(self.regions))      # otherwise most content is in no region
+        if rng.random() < self.p_noncontent:
+            self.noncontent = NonContentGen(rng, self.text, self.tattr).interleave(tt)
         return tt
+
+
+# ---------------------------------------------------------------------------------------------------------
+# children that are no content elements, interleaved with the content of a generated document (C04: they must be transparent)
+CONTENT_LOCALS = ("body", "div", "p", "span", "br", "set", "region")
+# what a parent reads among its element children (everything else is ignored by it): names that must not be used as "misplaced" there
+MEANINGFUL = {"tt": {"head", "body"}, "head": {"layout", "styling"}, "layout": {"region"}, "styling": {"style", "initial"},
+              "region": {"style"}}
+
+
+class NonContentGen:
+    """inserts tt:metadata / ttm:* elements, foreign-namespace and no-namespace elements, tt: elements that are unknown or known only
+    elsewhere, comments and processing instructions (as ElementTree presents them when the parser keeps them) at random positions of
+    a generated tree, each with its own tail: a part split off the preceding text, fresh text, or none"""
+    KINDS = ["tt:metadata", "tt:metadata", "ttm:element", "ttm:agent", "foreign element", "foreign element", "element in no namespace",
+             "unknown tt: element", "misplaced tt: element", "comment", "comment", "processing instruction"]
+
+    def __init__(self, rng, text, tattr=None):
+        self.rng = rng; self.text = text; self.tattr = tattr; self.nhidden = 0
+        self.stats = dict(children=0, by_kind={}, by_parent={}, in_seq_container=0, in_par_container=0, tail_fresh=0, tail_split=0, tail_none=0,
+                          tail_text_in_mixed_par=0, before={}, after={}, with_timing_attributes=0, with_hidden_content=0)
+
+    def hidden(self):
+        self.nhidden += 1; return f"H{self.nhidden}"
+
+    def attrs(self, e):
+        """attributes that would matter on a content element"""
+        rng = self.rng; n = 0
+        for name in ("begin", "end", "dur"):
+            if rng.random() < 0.3:
+                if self.tattr is not None: self.tattr(e, name, 8)
+                else: e.set(name, rng.choice(["1s", "00:00:02.5", "10f"]))
+                n = 1
+        if rng.random() < 0.2: e.set(q(NS_XML, "space"), rng.choice(["preserve", "default"]))
+        if rng.random() < 0.15: e.set(q(NS_XML, "lang"), "zz")
+        if rng.random() < 0.15: e.set("timeContainer", "seq")
+        if rng.random() < 0.15: e.set(q(NS_TTS, "color"), "red")
+        if rng.random() < 0.1: e.set(q(NS_TTS, "display"), "none")
+        if rng.random() < 0.1: e.set("region", "r0")
+        self.stats["with_timing_attributes"] += n
+
+    def content(self, e):
+        """content elements and text inside: none of it may show"""
+        rng = self.rng
+        if rng.random() < 0.5: e.text = self.hidden()
+        for _ in range(rng.choice([0, 0, 1, 2])):
+            c = et.SubElement(e, q(NS_TT, rng.choice(["p", "span", "span", "br", "div", "set"])))
+            if rng.random() < 0.6: c.text = self.hidden()
+            if rng.random() < 0.4: c.tail = self.hidden()
+            if rng.random() < 0.3: c.set("dur", "1s")
+        if e.text is not None or len(e): self.stats["with_hidden_content"] += 1
+
+    def make(self, parent_local):
+        rng = self.rng; kind = rng.choice(self.KINDS)
+        if kind == "tt:metadata":
+            e = et.Element(q(NS_TT, "metadata"))
+            for _ in range(rng.choice([0, 1, 1, 2])):
+                c = et.SubElement(e, q(NS_TTM, rng.choice(["title", "desc", "copyright"]))); c.text = self.hidden()
+                if rng.random() < 0.3: c.tail = "\n  "
+            if rng.random() < 0.2: self.content(e)
+            if rng.random() < 0.3: self.attrs(e)
+        elif kind == "ttm:element":
+            e = et.Element(q(NS_TTM, rng.choice(["title", "desc", "copyright"]))); e.text = self.hidden()
+            if rng.random() < 0.2: self.attrs(e)
+        elif kind == "ttm:agent":
+            e = et.Element(q(NS_TTM, "agent")); e.set("type", "person"); e.set(q(NS_XML, "id"), "a1")
+            c = et.SubElement(e, q(NS_TTM, "name")); c.text = self.hidden(); c.set("type", "full")
+            if rng.random() < 0.5:
+                c.tail = self.hidden(); a = et.SubElement(e, q(NS_TTM, "actor")); a.set("agent", "a1")
+        elif kind == "foreign element":
+            e = et.Element(q(NS_FOREIGN, rng.choice(["x", "p", "span", "metadata", "br"])))
+            if rng.random() < 0.5: self.attrs(e)
+            if rng.random() < 0.5: self.content(e)
+        elif kind == "element in no namespace":
+            e = et.Element(rng.choice(["x", "p", "span"]))
+            if rng.random() < 0.4: self.attrs(e)
+            if rng.random() < 0.4: self.content(e)
+        elif kind == "unknown tt: element":
+            e = et.Element(q(NS_TT, rng.choice(["foo", "animate", "image", "audio", "resources", "Span", "P"])))
+            if rng.random() < 0.5: self.attrs(e)
+            if rng.random() < 0.4: self.content(e)
+        elif kind == "misplaced tt: element":
+            names = [x for x in ("head", "layout", "styling", "style", "initial", "tt") if x not in MEANINGFUL.get(parent_local, set())]
+            e = et.Element(q(NS_TT, rng.choice(names)))
+            if rng.random() < 0.4: self.attrs(e)
+            if rng.random() < 0.4: self.content(e)
+        elif kind == "comment":
+            e = et.Comment(" " + self.hidden() + " ")
+        else:
+            e = et.ProcessingInstruction("target", self.hidden())
+        return e, kind
+
+    @staticmethod
+    def category(c):
+        if c is None: return "(none)"
+        if not isinstance(c.tag, str): return "non-content"
+        if not c.tag.startswith("{" + NS_TT + "}"): return "non-content"
+        l = _local(c)
+        return l if l in CONTENT_LOCALS else "non-content"
+
+    def insert(self, el):
+        rng = self.rng; st = self.stats
+        local = _local(el); i = rng.randint(0, len(el))
+        nc, kind = self.make(local)
+        prev = el[i - 1] if i > 0 else None; nxt = el[i] if i < len(el) else None
+        holder_text = el.text if prev is None else prev.tail
+        r = rng.random()
+        if r < 0.35 and holder_text is not None and len(holder_text) >= 2:
+            j = rng.randint(1, len(holder_text) - 1)
+            if prev is None: el.text = holder_text[:j]
+            else: prev.tail = holder_text[:j]
+            nc.tail = holder_text[j:]; st["tail_split"] += 1
+        elif r < 0.85:
+            nc.tail = self.text(); st["tail_fresh"] += 1
+        else:
+            st["tail_none"] += 1
+        el.insert(i, nc)
+        bump = lambda d, k: d.__setitem__(k, d.get(k, 0) + 1)
+        st["children"] += 1; bump(st["by_kind"], kind)
+        role = el.get(q(NS_TTS, "ruby"))
+        bump(st["by_parent"], local + (f"[{role}]" if local == "span" and role else ""))
+        seq = el.get("timeContainer") == "seq"
+        st["in_seq_container" if seq else "in_par_container"] += 1
+        mixed = local == "p" or (local == "span" and ruby_mixed(el))
+        if nc.tail is not None and mixed and not seq: st["tail_text_in_mixed_par"] += 1
+        bump(st["after"], self.category(prev)); bump(st["before"], self.category(nxt))
+
+    def interleave(self, tt):
+        rng = self.rng
+        sites = []
+        for e in tt.iter():
+            if not (isinstance(e.tag, str) and e.tag.startswith("{" + NS_TT + "}")): continue
+            l = _local(e)
+            w = {"p": 5, "span": 5, "div": 2, "body": 2, "region": 2, "br": 1, "set": 1, "tt": 1, "head": 1, "layout": 1, "styling": 1, "style": 1, "initial": 1}.get(l, 0)
+            sites += [e] * w
+        if not sites: return self.stats
+        for _ in range(rng.choice([1, 2, 3, 3, 4, 6, 9])):
+            self.insert(rng.choice(sites))
+        return self.stats
+
+
+def merge_stats(total, st):
+    for k, v in st.items():
+        if isinstance(v, dict):
+            d = total.setdefault(k, {})
+            for a, b in v.items(): d[a] = d.get(a, 0) + b
+        else:
+            total[k] = total.get(k, 0) + v
+    return total
 
 
 # ---------------------------------------------------------------------------------------------------------
@@ -484,6 +642,7 @@ def mirror_boundaries(tt, table, ctx):
         mixed = l == "p" or (l == "span" and ruby_mixed(e))
         seq = e.get("timeContainer") == "seq"
         if atomic and not pseq: idur = None
+        elif l == "set": idur = F(0)
         elif seq:
             cur = F(0)
             for c in e:
@@ -512,6 +671,7 @@ def mirror_boundaries(tt, table, ctx):
         out.add(pb + b)
         if en is not None: out.add(pb + en)
         seq = e.get("timeContainer") == "seq"; cur = F(0)
+        if _local(e) == "set": return
         for c in e:
             if not known(c): continue
             if cur is None: break
@@ -593,8 +753,9 @@ MODEL_INVALID = {((NS_TTS, "extent"), "1em 1em"), ((NS_TTS, "origin"), "1em 1em"
 
 
 class StyleDocGen:
-    def __init__(self, rng, p_bad=0.08):
+    def __init__(self, rng, p_bad=0.08, p_noncontent=0.0):
         self.rng = rng; self.p_bad = p_bad; self.graph_depth = 0; self.forward_refs = 0
+        self.p_noncontent = p_noncontent; self.noncontent = None
         self.wf = {}; self.flags = set(); self.ntext = 0; self.regions = []; self.ids = []
         self.keys = sorted(PROP_VALUES)
 
@@ -705,6 +866,8 @@ class StyleDocGen:
             if rng.random() < 0.5: self.put(r, self.count())
             self.refs(r, 0.4)
         body = et.SubElement(tt, q(NS_TT, "body")); self.content(body, "body", 0)
+        if rng.random() < self.p_noncontent:
+            self.noncontent = NonContentGen(rng, self.text).interleave(tt)
         return tt
 
 
